@@ -9,7 +9,8 @@
 (*   arity <= 2 : the full product of classes                                  *)
 (*   arity >= 3 : every tuple with at most two (arity > 4: one) irregular       *)
 (*                positions, the other                                          *)
-(*                positions sharing one regular class (half / one / two)       *)
+(*                positions sharing one regular class (half / one / two);      *)
+(*                plus every position in the same irregular class              *)
 (* "nonint" (a non-integer where an integer is expected) only occurs at        *)
 (* integer-valued positions.  Modes: v, d, h with all partials requested, and  *)
 (* for signatures with integer positions also d, h with those positions        *)
@@ -28,6 +29,9 @@ Tuples(sg) ==
                              asg \in {f \in [D -> Classes] : \A i \in D : f[i] \in IrregularAt(sg, i)} } :
                          D \in {S \in SUBSET (1..sg.ar) : Cardinality(S) <= (IF sg.ar <= 4 THEN 2 ELSE 1)} } :
                  base \in Regular }
+         \* ... and the tuples in which every position has the same irregular class (nine large arguments make a long
+         \* error text, nine NaN, ...)
+         \cup {[i \in 1..sg.ar |-> c] : c \in (Classes \ Regular) \ {"nonint"}}
 
 ModesOf(sg) == {<<m, FALSE>> : m \in Modes} \cup
                (IF Len(sg.ip) > 0 THEN {<<"d", TRUE>>, <<"h", TRUE>>} ELSE {})
